@@ -11,6 +11,8 @@ oracle      independent abstract history kept by the runner: success => exactly 
 sequences   corpus first; exhaustive over {rename A, A', B, undo latest|#0|#1, redo latest|#0} x {same second, next second}
             up to a length (quick: all of length <= 2 and a fixed slice of length 3; thorough: all of length <= 4), and
             random sequences of length <= 10 on three workspaces.
+repaired    same_second_duplicate_id, concat_id_collision, redo_id_collision (c3d511b) and redo_repeatable (07a4584) are
+            `fixed:` entries: their corpus sequences must conform now, and the old behaviour coming back is a VIOLATION.
 clock       LD_PRELOAD shim (`shim.run_with_clock`): every command runs at a fixed fake unix time, so "same second" and
             "next second" are exact.
 """
@@ -488,11 +490,13 @@ def judge(ctx, results):
             slug = FINDING_OF_SHAPE.get(shape)
             if slug and ctx.known(slug):
                 continue
+            returned = [f for f in ctx.fixed if slug and f"property={ctx.pid} " in f and f" {slug}:" in f]
             ctx.violation("history", {"workspace": r.ws, "files": WORKSPACES[r.ws], "sequence": [[c, dt] for c, dt in r.seq],
                                       "sequence_text": seq_str(r.seq), "terms": {k2: TERMS[k2] for k2 in TERMS}},
                           expected="every command succeeds into the state the history implies or is rejected with tree and history unchanged",
                           observed={"step": k, "shape": shape, "detail": detail, "stderr": err},
-                          note="oracle failure not covered by a listed finding")
+                          note=("a repaired defect has returned: " + returned[0]) if returned
+                          else "oracle failure not covered by a listed finding")
             stop = True
             break
         else:
@@ -570,9 +574,9 @@ def run(ctx):
     for (name, c), r in zip(corpus_cases(), res):
         want = c.get("expected_shape")
         got = r.verdict[1] if r.verdict else None
-        ctx.count("corpus:%s:%s" % (name, "reproduced" if got == want else "not-reproduced"))
+        ctx.count("corpus:%s:%s" % (name, "as-recorded" if got == want else "differs"))
         if got != want:
-            ctx.notes.append(f"corpus witness {name}: expected shape {want}, observed {got}")
+            ctx.notes.append(f"corpus witness {name}: recorded shape {want}, observed {got}")
     if judge(ctx, res):
         return
 
